@@ -127,7 +127,8 @@ def e1plus_typed(level):
     level 1: fuller alphabet (thorough tier)."""
     x, y, p, q = var('x'), var('y'), var('p'), var('q')
     if level == 0:
-        consts, muls, divs = [2, -1, 0.5], [2, -1, 0.5, 0], [2, -0.5]
+        # 0 and 1 are the identity / absorbing elements every folding rule special-cases
+        consts, muls, divs = [0, 1, 2, -1, 0.5], [2, -1, 0.5, 0, 1], [2, -0.5, 1]
         n3 = False
     else:
         consts, muls, divs = [0, 1, 2, -1, 0.5, -1.5, 4], [0, 1, 2, -1, -2, 0.5, -0.25, 4], [1, 2, -1, 0.5, -0.5, 4]
@@ -140,7 +141,7 @@ def e1plus_typed(level):
     logs = list(bl) + d1b
     inner_n = d1n if level else [e for i, e in enumerate(d1n) if keep_inner(e)]
     for inner in inner_n:
-        nums += one_above_numeric(inner, nl, [p] if level else [], consts if level else consts[:2], muls if level else muls[:3], divs[:1] if not level else divs[:3])
+        nums += one_above_numeric(inner, nl, [p] if level else [], consts if level else consts[1:3], muls if level else muls[:3], divs[:1] if not level else divs[:3])
     for inner in d1b:
         nums += one_above_numeric(inner, nl[:1], [], consts[:1], muls[:2] if not level else muls[:4], divs[:1])
         logs += one_above_logic(inner, bl)
